@@ -14,6 +14,18 @@ TRACE_FILES = ("agents.py", "communication.py", "discovery.py", "orchestrator.py
 
 def trace_prefixes():
     import os
+    # import everything that is traced (and what it imports lazily) before any run, so that
+    # import-time code never executes under the tracer
+    import pydcop.infrastructure.run                      # noqa: F401
+    import pydcop.replication.dist_ucs_hostingcosts       # noqa: F401
+    import pydcop.replication.path_utils                  # noqa: F401
+    import pydcop.reparation.removal                      # noqa: F401
+    import pydcop.dcop.scenario                           # noqa: F401
+    import pydcop.distribution.gh_cgdp                    # noqa: F401
+    from pydcop.algorithms import load_algorithm_module
+    for a in ("dpop", "mgm", "mgm2", "dsa", "adsa", "maxsum", "amaxsum", "syncbb", "dba", "gdba",
+              "dsatuto"):
+        load_algorithm_module(a)
     root = build.pydcop_root()
     return tuple(os.path.join(root, "pydcop", "infrastructure", f) for f in TRACE_FILES) + (
         os.path.join(root, "pydcop", "replication", "dist_ucs_hostingcosts.py"),)
@@ -150,3 +162,5 @@ def stats_from(sim, out):
     out["sim_time"] = sim.now
     out["stats"]["fault_preemptions"] += sim.stats["preemptions"]
     out["stats"]["fault_stalls"] += sim.stats["stalls"]
+    if sim.baton_violations:
+        out["stats"]["HARNESS_baton_violations"] += len(sim.baton_violations)
